@@ -141,7 +141,7 @@ def has_meta(s):
 
 
 def text_cue_nodes(line_strategy, min_lines=1, max_lines=4, empty_lines=True, split_nodes=False,
-                   empty_kinds=("br",)):
+                   empty_kinds=("br",), split_anywhere=False, edge_breaks=False):
     """Nodes (TEXT/BREAK only) of one cue.  Returns {"nodes": [...], "lines": [...],
     "multi": bool, "empties": bool} where lines are the authored visible lines."""
     @st.composite
@@ -169,21 +169,41 @@ def text_cue_nodes(line_strategy, min_lines=1, max_lines=4, empty_lines=True, sp
                 nodes.append({"t": ln[:k]})
                 nodes.append({"t": ln[k + 1:]})
                 multi = True
+            elif split_anywhere and len(ln) >= 2 and draw(st.integers(0, 3)) == 0:
+                # adjacent text nodes cut at any character (also inside a delimiter)
+                cuts = sorted(set(draw(st.lists(st.integers(1, len(ln) - 1), min_size=1, max_size=2))))
+                prev = 0
+                for k in cuts + [len(ln)]:
+                    nodes.append({"t": ln[prev:k]})
+                    prev = k
+                multi = True
             else:
                 nodes.append({"t": ln})
+        if edge_breaks and draw(st.integers(0, 5)) == 0:
+            # a caption may begin or end with line breaks (readers return them for <br/> at the
+            # edges of a paragraph)
+            where = draw(st.sampled_from(["tail", "tail", "head", "both"]))
+            k = draw(st.integers(1, 2))
+            if where in ("head", "both"):
+                nodes = [{"br": 1}] * k + nodes
+            if where in ("tail", "both"):
+                nodes = nodes + [{"br": 1}] * k
+            empties = True
         return {"nodes": nodes, "lines": ls, "multi": multi, "empties": empties}
     return build()
 
 
 def simple_set(line_strategy, n_min=1, n_max=4, max_us=DAY, min_dur=0, lang="en-US",
-               empty_lines=True, split_nodes=False, min_gap=0, max_lines=4, empty_kinds=("br",)):
+               empty_lines=True, split_nodes=False, min_gap=0, max_lines=4, empty_kinds=("br",),
+               split_anywhere=False, edge_breaks=False):
     """Single-language set of TEXT/BREAK cues with distinct increasing times."""
     @st.composite
     def build(draw):
         spans = draw(sorted_spans(n_min, n_max, max_us, min_dur=min_dur, min_gap=min_gap))
         cues = []
         for a, b in spans:
-            body = draw(text_cue_nodes(line_strategy, 1, max_lines, empty_lines, split_nodes, empty_kinds))
+            body = draw(text_cue_nodes(line_strategy, 1, max_lines, empty_lines, split_nodes, empty_kinds,
+                                       split_anywhere, edge_breaks))
             cues.append({"start": a, "end": b, "nodes": body["nodes"], "style": {},
                          "layout": None, "lines": body["lines"], "multi": body["multi"],
                          "empties": body["empties"]})
